@@ -117,4 +117,110 @@ theorem getCycleVector_all (g : GoodCfg) (step : Rat) (ph : List Rat) :
   rw [hm] at key
   exact key.symm
 
+/-! ### the container's `is_good` metric is C13's per-cycle quality flag (`Cycles.containerIsGood`) -/
+
+theorem samplesOf_append (A B : List Int) (va vb : List Rat) (h : A.length = va.length) (k : Int) :
+    samplesOf (A ++ B) (va ++ vb) k = samplesOf A va k ++ samplesOf B vb k := by
+  simp [samplesOf, List.zip_append h]
+
+theorem samplesOf_of_not_mem (cv : List Int) (vals : List Rat) (k : Int) (h : k ∉ cv) : samplesOf cv vals k = [] := by
+  unfold samplesOf
+  rw [List.map_eq_nil_iff, List.filter_eq_nil_iff]
+  intro p hp
+  have := (List.of_mem_zip hp).1
+  simp only [decide_eq_true_eq]
+  intro e; exact h (e ▸ this)
+
+theorem samplesOf_replicate (r : List Rat) (k : Int) : samplesOf (List.replicate r.length k) r k = r := by
+  induction r with
+  | nil => rfl
+  | cons a t ih =>
+    simp only [samplesOf, List.length_cons, List.replicate_succ, List.zip_cons_cons, List.filter_cons,
+      decide_true, if_true, List.map_cons] at ih ⊢
+    rw [ih]
+
+theorem labelRuns_true_ge {α : Type} (rs : List (List α)) : ∀ (c : Nat),
+    ∀ l ∈ paint (labelRuns (fun _ => true) c rs), (c : Int) ≤ l := by
+  induction rs with
+  | nil => intro c l hl; simp [labelRuns, paint] at hl
+  | cons r t ih =>
+    intro c l hl
+    simp only [labelRuns, if_true, paint_cons, List.mem_append, List.mem_replicate, labelInt] at hl
+    rcases hl with ⟨_, rfl⟩ | hl
+    · exact Int.le_refl _
+    · have := ih (c + 1) l hl; omega
+
+/-- with every run accepted, the samples carrying label `c + j` are exactly run `j` -/
+theorem samplesOf_labelRuns (rs : List (List Rat)) : ∀ (c j : Nat) (r : List Rat), rs[j]? = some r →
+    samplesOf (paint (labelRuns (fun _ => true) c rs)) rs.flatten ((c + j : Nat) : Int) = r := by
+  induction rs with
+  | nil => intro c j r h; simp at h
+  | cons r0 t ih =>
+    intro c j r h
+    simp only [labelRuns, if_true, paint_cons, labelInt, List.flatten_cons]
+    rw [samplesOf_append _ _ _ _ (by simp)]
+    cases j with
+    | zero =>
+      simp only [List.getElem?_cons_zero, Option.some.injEq] at h
+      subst h
+      rw [Nat.add_zero, samplesOf_replicate, samplesOf_of_not_mem, List.append_nil]
+      intro hm
+      have := labelRuns_true_ge t (c + 1) _ hm
+      omega
+    | succ j =>
+      simp only [List.getElem?_cons_succ] at h
+      rw [samplesOf_of_not_mem (List.replicate r0.length (c : Int)), List.nil_append]
+      · have := ih (c + 1) j r h
+        have e : c + 1 + j = c + (j + 1) := by omega
+        rw [e] at this
+        exact this
+      · intro hm
+        have := (List.mem_replicate.mp hm).2
+        omega
+
+theorem labelRuns_true_filter {α : Type} (rs : List (List α)) (c : Nat) :
+    ((labelRuns (fun _ => true) c rs).filter (·.2.isSome)).map (·.1) = rs := by
+  induction rs generalizing c with
+  | nil => rfl
+  | cons r t ih => simp [labelRuns, ih]
+
+theorem labelRuns_true_nCycles {α : Type} (rs : List (List α)) (c : Nat) :
+    nCycles (labelRuns (fun _ => true) c rs) = rs.length := by
+  induction rs generalizing c with
+  | nil => rfl
+  | cons r t ih =>
+    have := ih (c + 1)
+    simp only [nCycles] at this ⊢
+    simp [labelRuns, this]
+
+/-- **The quality flags stored by the container's constructor are C13's `containerIsGood`** (as 1.0 / 0.0). -/
+theorem isGood_metric (g : GoodCfg) (step : Rat) (ph : List Rat) :
+    (List.range (nLabels (paint (cvSegs (wrapAt step) (fun _ => true) ph)))).map
+        (fun (k : Nat) => (some (isGoodF g (samplesOf (paint (cvSegs (wrapAt step) (fun _ => true) ph)) ph (k : Int))) : Val))
+      = (containerIsGood g step ph).map fun b => some (if b then 1 else 0) := by
+  rw [nLabels_paint]
+  unfold containerIsGood
+  simp only []
+  unfold cvSegs
+  simp only []
+  have hfl := runsBy_flatten (wrapAt step) ph
+  split
+  · -- no wrap: no cycle, no flag
+    simp [nCycles, List.filterMap_map, Function.comp_def, filterMap_const_none, List.filter_map]
+  · rw [labelRuns_true_nCycles]
+    have hmap : ((labelRuns (fun _ => true) 0 (runsBy (wrapAt step) ph)).filter (·.2.isSome)).map (fun s => isGood g s.1)
+        = (runsBy (wrapAt step) ph).map (isGood g) := by
+      have := congrArg (List.map (isGood g)) (labelRuns_true_filter (runsBy (wrapAt step) ph) 0)
+      rw [List.map_map] at this
+      exact this
+    rw [hmap, List.map_map]
+    apply List.ext_getElem?
+    intro j
+    by_cases hj : j < (runsBy (wrapAt step) ph).length
+    · have hr := List.getElem?_eq_getElem hj
+      have := samplesOf_labelRuns (runsBy (wrapAt step) ph) 0 j _ hr
+      rw [hfl, Nat.zero_add] at this
+      simp [hj, this, isGoodF]
+    · simp [hj]
+
 end ComposeContainer
